@@ -31,27 +31,32 @@ ReqsMore ==
   \cup { Start(m, w, tA, v) \o pre \o CL(n) \o post \o CRLFs \o Body(n, b) :
            m \in {bHEAD, bOPTIONS}, w \in BOOLEAN, v \in {bHTTP10, bHTTP20}, pre \in {<<>>, HOdd}, post \in {<<>>, HClose},
            n \in {0, 3}, b \in {tabc, tCRLFbody} }
+ReqsMid ==
+  ReqsSmall
+  \cup { Start(m, TRUE, tA, v) \o pre \o CL(n) \o post \o CRLFs \o Body(n, tCRLFbody) :
+           m \in {bHEAD}, v \in {bHTTP10, bHTTP20}, pre \in {<<>>, HOdd}, post \in {<<>>, HClose}, n \in {0, 3} }
 Pipelines(R) == R \cup { a \o b : a \in R, b \in R }
 
 (* hostile token strings *)
 AlphabetFull == {bGET, bPOST, tSP, tA, bHTTP11, bHTTP10, CRLFs, bContentLength, bConnection, tColon, t0, t3, tabc, bclose, tx}
 AlphabetSmall == {bGET, tSP, tA, bHTTP11, CRLFs, bContentLength, tColon, t0, t3, tx}
-Alphabet == IF Scope = "hostile-quick" THEN AlphabetSmall ELSE AlphabetFull
-RECURSIVE TokStrings(_)
-TokStrings(k) == IF k = 0 THEN {<<>>} ELSE LET S == TokStrings(k - 1) IN S \cup { Append(s, t) : s \in S, t \in Alphabet }
-Hostile(k) == { Flatten(s) : s \in TokStrings(k) } \ {<<>>}
+RECURSIVE TokStrings(_, _)
+TokStrings(A, k) == IF k = 0 THEN {<<>>} ELSE LET S == TokStrings(A, k - 1) IN S \cup { Append(s, t) : s \in S, t \in A }
+Hostile(A, k) == { Flatten(s) : s \in TokStrings(A, k) } \ {<<>>}
 (* a well-formed head followed by every short token string (reaches the header and body stages) *)
 Head1 == Start(bPOST, FALSE, tA, bHTTP11)
-HostileAfterHead(k) == { Head1 \o Flatten(s) : s \in TokStrings(k) }
+HostileAfterHead(A, k) == { Head1 \o Flatten(s) : s \in TokStrings(A, k) }
+
+BadLengths == { Head1 \o Flatten(<<bContentLength, tColon, v>>) \o CRLFs \o CRLFs : v \in {t3, tx, tabc \o t3, t3 \o tx} }
 
 MCStreams ==
   CASE Scope = "wf-quick" -> Pipelines(ReqsSmall)
-    [] Scope = "wf-thorough" -> Pipelines(ReqsMore)
-    [] Scope = "hostile-quick" -> Hostile(3) \cup HostileAfterHead(3)
-    [] Scope = "hostile-thorough" -> Hostile(4) \cup HostileAfterHead(4)
-    [] Scope = "gen-quick" -> Pipelines(ReqsSmall) \cup Hostile(2) \cup HostileAfterHead(2)
-    [] Scope = "gen-thorough" -> Pipelines(ReqsMore) \cup Hostile(3) \cup HostileAfterHead(3)
+    [] Scope = "wf-thorough" -> ReqsMore \cup Pipelines(ReqsMid)
+    [] Scope = "hostile-quick" -> Hostile(AlphabetSmall, 3) \cup HostileAfterHead(AlphabetSmall, 3)
+    [] Scope = "hostile-thorough" -> Hostile(AlphabetSmall, 4) \cup Hostile(AlphabetFull, 3) \cup HostileAfterHead(AlphabetFull, 3)
+    [] Scope = "gen-quick" -> Pipelines(ReqsSmall) \cup Hostile(AlphabetFull, 2) \cup HostileAfterHead(AlphabetFull, 2) \cup BadLengths
+    [] Scope = "gen-thorough" -> ReqsMore \cup Pipelines(ReqsMid) \cup Hostile(AlphabetFull, 3) \cup HostileAfterHead(AlphabetFull, 3) \cup BadLengths
     [] Scope = "asfound-method" -> ReqsSmall
     [] Scope = "cov" -> { Start(bGET, FALSE, tA, bHTTP11) \o CL(3) \o CRLFs \o tabc, Start(bGET, FALSE, tA, bHTTP11) \o tx \o CRLFs }
-    [] Scope = "asfound-length" -> { Head1 \o Flatten(<<bContentLength, tColon, v>>) \o CRLFs \o CRLFs : v \in {t3, tx, tabc \o t3, t3 \o tx} }
+    [] Scope = "asfound-length" -> BadLengths
 =============================================================================
